@@ -22,6 +22,7 @@ type histStep struct {
 	Input   int    `json:"input"`   // index into the menu
 	Abandon int    `json:"abandon"` // prefix length given to the single call before the object is abandoned
 	Reset   string `json:"reset"`
+	Offs    int    `json:"offs,omitempty"` // start offset of the abandoned call (the input lies behind that many junk bytes)
 }
 
 type histState[T any] struct {
@@ -35,6 +36,14 @@ type c12Space[T any] struct {
 	inputs [][]byte
 	cfgs   []Cfg
 	name   string
+	offs   []int // start offsets used for the abandoned call (nil: only 0); the behaviour test always starts at 0
+}
+
+func histBuf(in []byte, c, k int) []byte {
+	if k == 0 {
+		return in[:c]
+	}
+	return append(bytes.Repeat([]byte("#"), k), in[:c]...)
 }
 
 // behaves: parse every menu input on a clone of the reset object and on a new object (one-shot and every single cut).
@@ -120,20 +129,25 @@ func historyBFS[T any](r *Run, sp *c12Space[T]) {
 						in := sp.inputs[ii]
 						var local []cand
 						var tr int64
-						for c := 1; c <= len(in); c++ {
+						hoffs := sp.offs
+						if hoffs == nil {
+							hoffs = []int{0}
+						}
+						for ck := 0; ck < len(hoffs)*len(in); ck++ {
+							c, k := ck%len(in)+1, hoffs[ck/len(in)]
 							o := d.clone(s.o)
-							d.safeStep(o, in[:c], 0, &cfg)
+							d.safeStep(o, histBuf(in, c, k), k, &cfg)
 							for _, rs := range sp.resets {
 								o2 := d.clone(o)
 								_, pm := guarded(func() string { rs.Fn(o2, &cfg); return "" })
 								tr++
 								if pm != "" {
-									cs := &Case{Kind: "C12", Driver: d.Name, Cfg: &cfg, Text: fmt.Sprintf("%q[:%d]", in, c), Extra: map[string]any{"space": sp.name, "hist": append(append([]histStep(nil), s.hist...), histStep{ii, c, rs.Name})}}
+									cs := &Case{Kind: "C12", Driver: d.Name, Cfg: &cfg, Text: fmt.Sprintf("%q[:%d]", in, c), Extra: map[string]any{"space": sp.name, "hist": append(append([]histStep(nil), s.hist...), histStep{ii, c, rs.Name, k})}}
 									r.Col.add(&Violation{Property: "C12", Site: d.Name + "." + rs.Name, Rule: "reset-does-not-panic", Class: "panic", Detail: pm, Case: cs})
 									continue
 								}
-								k := string(d.key(o2, nil, nil))
-								local = append(local, cand{o2, k, append(append([]histStep(nil), s.hist...), histStep{ii, c, rs.Name})})
+								key := string(d.key(o2, nil, nil))
+								local = append(local, cand{o2, key, append(append([]histStep(nil), s.hist...), histStep{ii, c, rs.Name, k})})
 							}
 						}
 						mu.Lock()
@@ -199,7 +213,7 @@ func regC12[T any](sp *c12Space[T]) {
 		o := d.New(&cfg)
 		var out []*Violation
 		for _, h := range hist {
-			d.safeStep(o, sp.inputs[h.Input][:h.Abandon], 0, &cfg)
+			d.safeStep(o, histBuf(sp.inputs[h.Input], h.Abandon, h.Offs), h.Offs, &cfg)
 			for _, rs := range sp.resets {
 				if rs.Name == h.Reset {
 					if _, pm := guarded(func() string { rs.Fn(o, &cfg); return "" }); pm != "" {
@@ -265,18 +279,26 @@ func checkC12(r *Run) {
 	msgSp := &c12Space[sipsp.PSIPMsg]{drv: msgDrv, name: "msg", inputs: strs(c12MsgInputs), cfgs: mcf, resets: []resetOp[sipsp.PSIPMsg]{
 		{"Reset", func(o *sipsp.PSIPMsg, cfg *Cfg) { o.Reset() }},
 		{"Init", func(o *sipsp.PSIPMsg, cfg *Cfg) { o.Init(nil, sameHdrs(o, cfg), sameVals(o.PV.Contacts.Vals, cfg)) }},
-	}}
+		// the caller's arrays are swapped for a second set, a short message is parsed into that one, and the first
+		// set is attached again: "the same caller-supplied arrays" as a new object would get
+		{"InitSwap", func(o *sipsp.PSIPMsg, cfg *Cfg) {
+			ah, av := sameHdrs(o, cfg), sameVals(o.PV.Contacts.Vals, cfg)
+			o.Init(nil, mkHdrs(cfg.HdrCap), mkVals(cfg.ValCap))
+			sipsp.ParseSIPMsg([]byte("REGISTER sip:r SIP/2.0\r\nContact: <sip:one@h>\r\nl: 0\r\n\r\n"), 0, o, 0)
+			o.Init(nil, ah, av)
+		}},
+	}, offs: []int{0, 32}}
 	var hcf []Cfg
 	for _, h := range []int{-1, 0, 1, 8} {
 		for _, v := range caps {
 			hcf = append(hcf, Cfg{HdrCap: h, ValCap: v, WithVals: true})
 		}
 	}
-	hdrsSp := &c12Space[HdrsObj]{drv: hdrsDrv, name: "hdrs", inputs: strs(c12HdrInputs), cfgs: hcf, resets: []resetOp[HdrsObj]{
+	hdrsSp := &c12Space[HdrsObj]{offs: []int{0, 19}, drv: hdrsDrv, name: "hdrs", inputs: strs(c12HdrInputs), cfgs: hcf, resets: []resetOp[HdrsObj]{
 		{"Reset", func(o *HdrsObj, cfg *Cfg) { o.HL.Reset(); o.PV.Reset() }},
 		{"Init", func(o *HdrsObj, cfg *Cfg) { o.HL.Reset(); o.PV.Init(sameVals(o.PV.Contacts.Vals, cfg)) }},
 	}}
-	hdrSp := &c12Space[HdrObj]{drv: hdrLineDrv, name: "hdrline", inputs: strs([]string{"From: \"A\" <sip:a@b>;tag=x\r\nX", "Contact: <sip:x@y>;expires=5, \"q\" <sip:z@w>;q=0.5\r\nX", "P-Asserted-Identity: <sip:p@q>, <tel:1>\r\nX", "CSeq: 1 A\r\nX", "l: 5\r\nX", "i: c\r\nX", "Expires: 7\r\nX", "To: \"u\r\nX", "G: v\r\n w\r\nX"}),
+	hdrSp := &c12Space[HdrObj]{offs: []int{0, 19}, drv: hdrLineDrv, name: "hdrline", inputs: strs([]string{"From: \"A\" <sip:a@b>;tag=x\r\nX", "Contact: <sip:x@y>;expires=5, \"q\" <sip:z@w>;q=0.5\r\nX", "P-Asserted-Identity: <sip:p@q>, <tel:1>\r\nX", "CSeq: 1 A\r\nX", "l: 5\r\nX", "i: c\r\nX", "Expires: 7\r\nX", "To: \"u\r\nX", "G: v\r\n w\r\nX"}),
 		cfgs: []Cfg{{ValCap: -1, WithVals: true}, {ValCap: 0, WithVals: true}, {ValCap: 1, WithVals: true}, {ValCap: 4, WithVals: true}}, resets: []resetOp[HdrObj]{
 			{"Reset", func(o *HdrObj, cfg *Cfg) { o.H.Reset(); o.PV.Reset() }},
 			{"Init", func(o *HdrObj, cfg *Cfg) { o.H.Reset(); o.PV.Init(sameVals(o.PV.Contacts.Vals, cfg)) }},
@@ -292,23 +314,40 @@ func checkC12(r *Run) {
 		lcf = append(lcf, Cfg{ValCap: v, HdrCap: -1})
 	}
 	lcf = append(lcf, Cfg{ValCap: 40, HdrCap: -1})
-	ctSp := &c12Space[sipsp.PContacts]{drv: contactsDrv, name: "contacts", inputs: listIn, cfgs: lcf, resets: []resetOp[sipsp.PContacts]{{"Reset", func(o *sipsp.PContacts, cfg *Cfg) { o.Reset() }}}}
+	ctSp := &c12Space[sipsp.PContacts]{offs: []int{0, 19}, drv: contactsDrv, name: "contacts", inputs: listIn, cfgs: lcf, resets: []resetOp[sipsp.PContacts]{{"Reset", func(o *sipsp.PContacts, cfg *Cfg) { o.Reset() }},
+		{"Init", func(o *sipsp.PContacts, cfg *Cfg) { o.Init(sameVals(o.Vals, cfg)) }}}}
 	paiSp := &c12Space[sipsp.PPAIs]{drv: paisDrv, name: "pais", inputs: listIn, cfgs: lcf[:1], resets: []resetOp[sipsp.PPAIs]{{"Reset", func(o *sipsp.PPAIs, cfg *Cfg) { o.Reset() }}, {"Init", func(o *sipsp.PPAIs, cfg *Cfg) { o.Init() }}}}
-	naSp := &c12Space[sipsp.PFromBody]{drv: nameAddrDrv, name: "name-addr", inputs: listIn, cfgs: []Cfg{{HdrType: int(sipsp.HdrFrom)}, {HdrType: int(sipsp.HdrContact)}}, resets: []resetOp[sipsp.PFromBody]{{"Reset", func(o *sipsp.PFromBody, cfg *Cfg) { o.Reset() }}}}
+	naSp := &c12Space[sipsp.PFromBody]{offs: []int{0, 19}, drv: nameAddrDrv, name: "name-addr", inputs: listIn, cfgs: []Cfg{{HdrType: int(sipsp.HdrFrom)}, {HdrType: int(sipsp.HdrContact)}}, resets: []resetOp[sipsp.PFromBody]{{"Reset", func(o *sipsp.PFromBody, cfg *Cfg) { o.Reset() }}}}
 	numIn := strs([]string{"42 INVITE\r\nX", " 7\r\n X \r\nY", "4294967296 A\r\nX", "x\r\nX", "12345\r\nX"})
-	csSp := &c12Space[sipsp.PCSeqBody]{drv: cseqDrv, name: "cseq", inputs: numIn, cfgs: []Cfg{{}}, resets: []resetOp[sipsp.PCSeqBody]{{"Reset", func(o *sipsp.PCSeqBody, cfg *Cfg) { o.Reset() }}}}
+	csSp := &c12Space[sipsp.PCSeqBody]{offs: []int{0, 19}, drv: cseqDrv, name: "cseq", inputs: numIn, cfgs: []Cfg{{}}, resets: []resetOp[sipsp.PCSeqBody]{{"Reset", func(o *sipsp.PCSeqBody, cfg *Cfg) { o.Reset() }}}}
 	ciSp := &c12Space[sipsp.PCallIDBody]{drv: callidDrv, name: "callid", inputs: numIn, cfgs: []Cfg{{}}, resets: []resetOp[sipsp.PCallIDBody]{{"Reset", func(o *sipsp.PCallIDBody, cfg *Cfg) { o.Reset() }}}}
 	uiSp := &c12Space[sipsp.PUIntBody]{drv: uintDrv, name: "uint", inputs: numIn, cfgs: []Cfg{{Flags: 0}, {Flags: 1}}, resets: []resetOp[sipsp.PUIntBody]{{"Reset", func(o *sipsp.PUIntBody, cfg *Cfg) { o.Reset() }}}}
-	flSp := &c12Space[sipsp.PFLine]{drv: flineDrv, name: "fline", inputs: strs([]string{"INVITE sip:a@b SIP/2.0\r\nX", "SIP/2.0 404 Not Found\r\nX", "SIP/2.0 2x0 OK\r\nXXXX", "A  b c\r\nXXXXXXXXXXX"}), cfgs: []Cfg{{}}, resets: []resetOp[sipsp.PFLine]{{"Reset", func(o *sipsp.PFLine, cfg *Cfg) { o.Reset() }}}}
+	flSp := &c12Space[sipsp.PFLine]{offs: []int{0, 19}, drv: flineDrv, name: "fline", inputs: strs([]string{"INVITE sip:a@b SIP/2.0\r\nX", "SIP/2.0 404 Not Found\r\nX", "SIP/2.0 2x0 OK\r\nXXXX", "A  b c\r\nXXXXXXXXXXX"}), cfgs: []Cfg{{}}, resets: []resetOp[sipsp.PFLine]{{"Reset", func(o *sipsp.PFLine, cfg *Cfg) { o.Reset() }}}}
 	tokIn := strs([]string{"branch = \"q\\\"x\" ; lr;x=1,next", "a=b\r\nX", "a=\"open", "=bad", "a;;b = c ?h"})
-	tkSp := &c12Space[sipsp.PTokParam]{drv: tokParamDrv, name: "tokparam", inputs: tokIn, cfgs: []Cfg{{Flags: uint(sipsp.POptTokCommaTermF)}, {Flags: uint(sipsp.POptTokURIParamF)}, {Flags: uint(sipsp.POptTokSpTermF)}}, resets: []resetOp[sipsp.PTokParam]{{"Reset", func(o *sipsp.PTokParam, cfg *Cfg) { o.Reset() }}}}
+	tkSp := &c12Space[sipsp.PTokParam]{offs: []int{0, 19}, drv: tokParamDrv, name: "tokparam", inputs: tokIn, cfgs: []Cfg{{Flags: uint(sipsp.POptTokCommaTermF)}, {Flags: uint(sipsp.POptTokURIParamF)}, {Flags: uint(sipsp.POptTokSpTermF)}}, resets: []resetOp[sipsp.PTokParam]{{"Reset", func(o *sipsp.PTokParam, cfg *Cfg) { o.Reset() }}}}
 	var ucf []Cfg
 	for _, v := range caps {
 		ucf = append(ucf, Cfg{ValCap: v, HdrCap: -1}, Cfg{ValCap: v, HdrCap: -1, Flags: uint(sipsp.POptInputEndF)})
 	}
-	upSp := &c12Space[URIParamsObj]{drv: uriParamsDrv, name: "uriparams", inputs: tokIn, cfgs: ucf, resets: []resetOp[URIParamsObj]{{"Reset", func(o *URIParamsObj, cfg *Cfg) { o.L.Reset(); o.Total = 0 }}}}
+	upSp := &c12Space[URIParamsObj]{drv: uriParamsDrv, name: "uriparams", inputs: tokIn, cfgs: ucf, resets: []resetOp[URIParamsObj]{{"Reset", func(o *URIParamsObj, cfg *Cfg) { o.L.Reset(); o.Total = 0 }},
+		{"Init", func(o *URIParamsObj, cfg *Cfg) {
+			if cfg.ValCap < 0 {
+				o.L.Init(nil)
+			} else {
+				o.L.Init(o.L.Params)
+			}
+			o.Total = 0
+		}}}}
 	uhIn := strs([]string{"a=1&b = \"q\"&c", "x=\"open", "a&&b=2\r\nX", "=bad", "h1=v1&h2=v2&h3=v3&h4"})
-	uhSp := &c12Space[URIHdrsObj]{drv: uriHdrsDrv, name: "urihdrs", inputs: uhIn, cfgs: ucf, resets: []resetOp[URIHdrsObj]{{"Reset", func(o *URIHdrsObj, cfg *Cfg) { o.L.Reset(); o.Total = 0 }}}}
+	uhSp := &c12Space[URIHdrsObj]{drv: uriHdrsDrv, name: "urihdrs", inputs: uhIn, cfgs: ucf, resets: []resetOp[URIHdrsObj]{{"Reset", func(o *URIHdrsObj, cfg *Cfg) { o.L.Reset(); o.Total = 0 }},
+		{"Init", func(o *URIHdrsObj, cfg *Cfg) {
+			if cfg.ValCap < 0 {
+				o.L.Init(nil)
+			} else {
+				o.L.Init(o.L.Hdrs)
+			}
+			o.Total = 0
+		}}}}
 
 	regC12(msgSp)
 	regC12(hdrsSp)
